@@ -72,11 +72,11 @@ pub fn spec(prop: &str) -> Option<CheckSpec> {
             level: "exploration",
             rule: "Each run: 2-6 simulated caller tasks, each with its own program over its own instances (hasher histories through update/Write/Read adapters, XOF reader histories with seeks, one-shot calls), each task forced to its own SIMD level, interleaved by the baton scheduler at every kernel dispatch, detect() call, reader call and operation boundary (uniform / sticky / bursty schedules). Oracle (Solo): every task program is also executed alone and every operation must return the same bytes under interleaving; the per-operation oracles of C02/C03 apply as well. Readers of a task may be hit by runs of Interrupted results (8-500 in a row) or fail. Shared-file family: independent hashers on several tasks hash the same files through update_mmap, update_reader(File) and update_mmap_rayon (the latter on a one-thread pool whose worker carries the calling task's scheduler identity, so the inside of the call interleaves deterministically with the other tasks). Miri part (seeded scheduler, preemption at any basic block, race detector; quick: 40 interleavings, thorough: ~220): disjoint-instance programs, and clones of one OutputReader / Hasher with a history handed to 3-4 threads, each thread's results compared with the same program run alone. distinct_nontrivial = distinct schedule signatures + state shapes.",
             families: vec![
-                Family { name: "c18", gen: gen::c18, quick: 25_000, thorough: 1_500_000, judge: Judge::Solo },
-                Family { name: "c18-mixed-c", gen: gen::c18_mixed, quick: 30_000, thorough: 1_000_000, judge: Judge::Solo },
-                Family { name: "c18-streams", gen: gen::c18_streams, quick: 400, thorough: 15_000, judge: Judge::Solo },
+                Family { name: "c18", gen: gen::c18, quick: 25_000, thorough: 600_000, judge: Judge::Solo },
+                Family { name: "c18-mixed-c", gen: gen::c18_mixed, quick: 30_000, thorough: 500_000, judge: Judge::Solo },
+                Family { name: "c18-streams", gen: gen::c18_streams, quick: 400, thorough: 3_000, judge: Judge::Solo },
                 Family { name: "c18-firstuse", gen: gen::c18_firstuse, quick: 480, thorough: 20_000, judge: Judge::FirstUse },
-                Family { name: "c18-sharedfile", gen: gen::c18_sharedfile, quick: 3_000, thorough: 100_000, judge: Judge::Solo },
+                Family { name: "c18-sharedfile", gen: gen::c18_sharedfile, quick: 3_000, thorough: 30_000, judge: Judge::Solo },
             ],
             real: REAL_RUST.to_vec(),
             stubs: vec!["Rust cpufeatures detection cache is real but not schedulable (macro-generated private static): first-use race covered only by the process-level tier"],
